@@ -39,6 +39,8 @@ func readMsg(msg []byte, ring openpgp.KeyRing, pw []byte, r *rand.Rand) readResu
 			return pw, nil
 		}
 	}
+	g := guardInputs("message", msg, "passphrase", pw)
+	defer g.check("ReadMessage")
 	md, err := openpgp.ReadMessage(bytes.NewReader(msg), ring, prompt, nil)
 	if err != nil {
 		return readResult{err: err, stage: "ReadMessage"}
@@ -246,7 +248,7 @@ func c44GoMade(m *mon.M, ks *keyset) {
 				w, err = openpgp.SymmetricallyEncrypt(&out, passphrase, hints, cfg)
 			}
 			if err == nil {
-				err = writeChunked(w, plain, r)
+				err = writeChunked("openpgp."+map[string]string{"encrypt": "Encrypt", "encrypt+sign": "Encrypt", "sign": "Sign", "symmetric": "SymmetricallyEncrypt"}[op], w, plain, r)
 			}
 			if err == nil {
 				err = w.Close()
@@ -423,7 +425,9 @@ func c44GoMade(m *mon.M, ks *keyset) {
 			if strings.HasPrefix(op, "armored") {
 				check = openpgp.CheckArmoredDetachedSignature
 			}
+			g := guardInputs("signed-data", plain, "signature", msg)
 			who, verr := check(ks.pub, srcReader(plain, r), bytes.NewReader(msg))
+			g.check("CheckDetachedSignature")
 			m.Count("go_reads", 1)
 			if verr != nil {
 				fail("go-made:"+op+":own-signature-rejected", map[string]any{"err": verr.Error()})
@@ -996,6 +1000,7 @@ func (ks *keyset) gpgRejectsOwn(msg, data []byte, detached bool, pw string) (boo
 func TestC44(t *testing.T) {
 	m := mon.New(t, "C44")
 	defer m.Done()
+	curMon = m
 	m.Rule("go-made: case = (operation of Encrypt / Encrypt+sign / Sign / SymmetricallyEncrypt / DetachSign(+Text) / ArmoredDetachSign(+Text), signer and 1-2 recipients out of 8 keys {NewEntity RSA-2048/1024 with and without preferences; gpg RSA-2048 with signing subkey, DSA-2048/ElGamal, DSA-1024/ElGamal, ECDSA P-256 and P-384 with RSA subkey}, config cipher/hash/compression/S2K count, file hints, message 0..100 KiB at framing boundaries or canonical-text edge cases, write/read chunking); judged: read back by every recipient with plaintext equality, SignatureError nil after EOF, IsEncrypted/IsSigned/IsSymmetricallyEncrypted, signer identity, session keys only to encryption-capable and signatures only from signing-capable (sub)keys per gpg's key listing; every third case is also read by gpg (exit status, GOODSIG, DECRYPTION_OKAY, GOODMDC, plaintext). " +
 		"gpg-made: gpg --encrypt/--sign/--symmetric/--detach-sign/--sign --encrypt/--textmode with --cipher-algo, --digest-algo, --compress-algo none/zip/zlib/bzip2, --rfc4880, S2K modes, read back here with the same judgements. " +
 		"tamper: single-octet substitutions (all offsets up to a cap, else structure octets + stride sample) of go-made and gpg-made messages and of detached signatures / signed data; a mutated message that is accepted as authentic is a violation when the octet lies in a region the harness's own packet walker classifies as signed or MDC-protected (literal body, hashed signature area, signature value, SEIPD ciphertext, signed data), or when it is accepted with a different plaintext; other regions are counted. distinct = (stream, operation, key algorithms, cipher/hash/compression, size and text class)")
@@ -1011,6 +1016,9 @@ func TestC44(t *testing.T) {
 	c44GPGMade(m, ks)
 	c44RMD160(m, ks)
 	c44Tamper(m, ks)
+	c44WriterSplits(m, ks)
+	c44CanonHashSplits(m)
+	ks.verifyKeysUnchanged(m)
 	m.Count("gpg_calls_total", int(ks.g.calls.Load()))
 	m.Note("Texts with a CR that is not part of a CRLF pair: gpg strips such CRs before hashing text-mode signatures, the package's canonicaliser keeps them (and turns CR CR LF into CR CR CR LF); RFC 4880 §5.2.1 does not settle it, so these cases are counted under text_exotic_cr:* and not judged against gpg.")
 
@@ -1027,4 +1035,5 @@ func TestC44(t *testing.T) {
 	m.Gate("keyflag_oracle_signing_keys", m.N(60, 3000), "issuer key ids checked against gpg's capability listing")
 	m.Gate("text_cases:canonical_classes", m.N(20, 1000), "text-mode signatures over bare LF / CRLF / trailing blanks / no final newline")
 	c44TamperGates(m)
+	c44SplitGates(m)
 }
